@@ -165,6 +165,20 @@ func isRefType(t types.Type) bool {
 	return false
 }
 
+// zeroOfType: the zero value of a type; an array has its length ("var c [4]byte" is four zero bytes, not an empty string)
+func zeroOfType(t types.Type) string {
+	if a, ok := types.Unalias(t).Underlying().(*types.Array); ok {
+		if isByte(a.Elem()) {
+			if a.Len() == 0 {
+				return "bempty"
+			}
+			return fmt.Sprintf("(bzeros %d)", a.Len())
+		}
+		return fmt.Sprintf("(mkseq %d %s)", a.Len(), zeroArr(sortOf(a.Elem())))
+	}
+	return zeroOf(sortOf(t))
+}
+
 func zeroOf(s string) string {
 	switch {
 	case s == "Int":
@@ -347,6 +361,7 @@ type FuncGen struct {
 	returns     []*State
 	quiet       int // >0: spec evaluation, no safety obligations
 	loopOrd     int
+	afterCount  map[string]int // calls seen so far per callee name (for "after <callee>#k: assert")
 	notes       []string // assumptions / uncontracted callees etc.
 	unbound     string   // non-empty: function could not be lowered
 	info        *types.Info
